@@ -29,7 +29,7 @@ func pickIdx(r *common.RNG) int {
 	if r.Chance(4, 5) {
 		return 0
 	}
-	return 1 + r.Intn(4)
+	return 1 + r.Intn(5)
 }
 
 func sortedKeys[T any](m map[string]T) []string {
@@ -195,7 +195,7 @@ func (x *genCtx) guards(allTrue bool) string {
 func (x *genCtx) okLine() string {
 	r, g := x.r, x.g
 	h := helperName
-	switch []int{r.Intn(34), 27, 28, 4, 35}[pickIdx(r)] {
+	switch []int{r.Intn(34), 27, 28, 4, 35, 36}[pickIdx(r)] {
 	case 0, 1:
 		return fmt.Sprintf("exec %s echo %s %s", h, pick(r, wordsPool), pick(r, wordsPool))
 	case 2:
@@ -359,6 +359,30 @@ func (x *genCtx) okLine() string {
 		return fmt.Sprintf("exec %s both %s %s", h, pick(r, wordsPool), pick(r, wordsPool))
 	case 33:
 		return x.marker()
+	case 36:
+		// exists looks through symbolic links (Stat, not Lstat)
+		f, hasF := x.someFile()
+		switch r.Intn(6) {
+		case 0:
+			if hasF {
+				return fmt.Sprintf("symlink lk%d -> %s\nexists lk%d", x.n, f, x.n)
+			}
+		case 1:
+			return fmt.Sprintf("symlink dg%d -> nowhere%d\n! exists dg%d", x.n, x.n, x.n)
+		case 2:
+			if hasF && os.Geteuid() == 0 {
+				return fmt.Sprintf("chmod 444 %s\nsymlink ro%d -> %s\nexists -readonly ro%d", f, x.n, f, x.n)
+			}
+		case 3:
+			ds := x.dirs()
+			return fmt.Sprintf("symlink ld%d -> %s\nexists ld%d", x.n, rel(g, pick(r, ds), r), x.n)
+		case 4:
+			// the target goes away: the link is dangling from then on
+			return fmt.Sprintf("exec %s write tg%d.txt x\nsymlink lt%d -> tg%d.txt\nexists lt%d\nrm tg%d.txt\n! exists lt%d", h, x.n, x.n, x.n, x.n, x.n, x.n)
+		case 5:
+			return fmt.Sprintf("symlink dg%d -> nowhere%d\n[linux] ! exists dg%d nofile.txt", x.n, x.n, x.n)
+		}
+		return fmt.Sprintf("symlink dg%d -> nowhere%d\n! exists dg%d", x.n, x.n, x.n)
 	}
 	return fmt.Sprintf("exec %s echo %s", h, pick(r, wordsPool))
 }
@@ -379,7 +403,7 @@ func (x *genCtx) failLine() string {
 	r, g := x.r, x.g
 	h := helperName
 	f, hasF := x.someFile()
-	switch []int{r.Intn(30), 9, 15, 30}[pickIdx(r)%4] {
+	switch []int{r.Intn(30), 9, 15, 30, 31, 31}[pickIdx(r)] {
 	case 0:
 		return "exists nofile.txt"
 	case 1:
@@ -477,6 +501,17 @@ func (x *genCtx) failLine() string {
 		return fmt.Sprintf("exec %s write nodir/zz/f.txt x", h)
 	case 29:
 		return fmt.Sprintf("exec %s badsub", h)
+	case 31:
+		// links: a dangling one does not exist, a valid one does, a link to a writable file is not read-only
+		switch r.Intn(3) {
+		case 0:
+			return fmt.Sprintf("symlink fd%d -> nowhere%d\nexists fd%d", x.n, x.n, x.n)
+		case 1:
+			if hasF {
+				return fmt.Sprintf("symlink fl%d -> %s\n! exists fl%d", x.n, f, x.n)
+			}
+		}
+		return fmt.Sprintf("exec %s write fw%d.txt x\nsymlink fr%d -> fw%d.txt\nexists -readonly fr%d", h, x.n, x.n, x.n, x.n)
 	case 30:
 		// too many matches must fail as well as too few
 		w := x.outWord(g.out)
@@ -599,6 +634,7 @@ func genParams(r *common.RNG, c *Case, cond *condInfo) {
 	c.Ree = r.Chance(1, 5)
 	c.Uniq = r.Chance(1, 5)
 	c.Cmds = r.Chance(3, 5)
+	c.Shadow = c.Cmds && r.Chance(1, 2)
 	cond.trueC = append([]string{}, trueConds...)
 	cond.falseC = append([]string{}, falseConds...)
 	if r.Chance(1, 2) {
